@@ -2,7 +2,7 @@
 recorded observations -> CalcSem in trace mode (TLC is the judge) -> ACCEPT / DIVERGE per session.
 
 A session is {"id", "items": [AST | {"perr": True, "src": text}], "stdin": [str], "meta": any}."""
-import json, re, os, zlib
+import json, time, re, os, zlib
 import vlib
 from astlib import ps
 
@@ -96,11 +96,15 @@ def judge(sessions, cmp=("value",), mode="used", maxsteps=60000, trace=False, ti
     # outside the instruction loop), a single one is load on the machine
     slow = [rs for rs in real_in if real.get(rs["id"]) and real[rs["id"]][0].get("kind") == "timeout"]
     for rs in slow:
-        again = vlib.run_real([rs], nworkers=1)
-        if again.get(rs["id"]) and again[rs["id"]][0].get("kind") != "timeout":
-            real[rs["id"]] = again[rs["id"]]
+        for attempt in (1, 2):
+            if attempt == 2:
+                time.sleep(20)          # a machine short of memory or processors needs a moment; a program that does not terminate fails again anyway
+            again = vlib.run_real([rs], nworkers=1)
+            if again.get(rs["id"]) and again[rs["id"]][0].get("kind") not in ("timeout", "crash"):
+                real[rs["id"]] = again[rs["id"]]
+                break
         else:
-            real[rs["id"]] = [{"kind": "hang", "where": "no result after 60 s of wall clock, twice (outside the VM's instruction loop)"}]
+            real[rs["id"]] = [{"kind": "hang", "where": "no result after 60 s of wall clock, three times, the last two on its own (outside the VM's instruction loop)"}]
     verdicts = {}
     tlc_in = []
     for s in sessions:
